@@ -6,7 +6,7 @@
 (* calls the routines and compares with the printed answers.                   *)
 EXTENDS Structural, Json
 
-CONSTANTS Mode,      \* "dir" | "und" | "part" | "prod" | "prodx" | "gen" | "grid"
+CONSTANTS Mode,      \* "dir" | "und" | "part" | "prod" | "prodx" | "gen" | "grid" | "flow" | "flow5" | "walk" | "equal"
           NMin, NMax, \* node counts enumerated
           Salt,      \* weight salt (VERIF_SEED)
           Palette    \* "part": colours a partial colouring may use
@@ -61,7 +61,25 @@ PreNodes(pre, ids) == CASE pre = "none" -> {}
 PreEdges(pre, ids) == CASE pre = "none" -> {}
                         [] pre = "foreign" -> IF Len(ids) > 0 THEN {<<GForeign, ids[1]>>} ELSE {}
                         [] pre = "overlap" -> IF Len(ids) >= 2 /\ ids[1] # ids[2] THEN {<<ids[2], ids[1]>>} ELSE {}
+(* "flow": control flow intervals of every digraph on NMin .. NMax nodes from every entry node.  "flow5": the   *)
+(* digraphs on 5 nodes, entry node 1, one of 64 shards chosen by Salt: the presence of six of the twenty arcs     *)
+(* (those out of nodes 4 and 5 into 1, 2, 3) is fixed by the bits of the shard number, the other fourteen range    *)
+(* over every subset (16 384 digraphs per shard; the 64 shards together are all 2^20).                            *)
+ShardPairs == <<<<4, 1>>, <<4, 2>>, <<4, 3>>, <<5, 1>>, <<5, 2>>, <<5, 3>>>>
+ShardNo == (Salt * 37 + 11) % 64
+ShardFixed == {ShardPairs[i] : i \in {j \in 1 .. 6 : (ShardNo \div (2 ^ (j - 1))) % 2 = 1}}
+Flow5Graphs == {[V |-> 1 .. 5, E |-> D \cup ShardFixed] : D \in SUBSET (DirPairs(5) \ Rng(ShardPairs))}
+(* "walk": IsPathIn on every digraph (held directed) and every undirected graph on NMin .. NMax nodes, every node   *)
+(* sequence over the nodes and one id that is no node, up to length 4 (3 on 4 nodes).  "equal": topo.Equal on      *)
+(* every ordered pair of stored graphs whose node set is ANY subset of 1 .. NMax (98 stored graphs for NMax = 3).   *)
+SubGraphs(m) == UNION {{[V |-> W, E |-> D] : D \in SUBSET {p \in W \X W : p[1] # p[2]}} : W \in SUBSET (1 .. m)}
+StoredSub(m) == {s \in [g : SubGraphs(m), und : BOOLEAN] : s.und => Sym(s.g.E) = s.g.E}
+WalkGraphs == {s \in [g : DirGraphs, und : BOOLEAN] : s.und => Sym(s.g.E) = s.g.E}
 Cases == CASE Mode = "dir"  -> DirGraphs
+           [] Mode = "flow" -> DirGraphs
+           [] Mode = "flow5" -> Flow5Graphs
+           [] Mode = "walk" -> WalkGraphs
+           [] Mode = "equal" -> {[a |-> x, b |-> y] : x \in StoredSub(NMax), y \in StoredSub(NMax)}
            [] Mode = "und"  -> UndGraphs(NMin, NMax)
            [] Mode = "part" -> UNION {{[V |-> h.V, E |-> h.E, part |-> p] : p \in [h.V -> Palette \cup {None}]} : h \in UndGraphs(NMin, NMax)}
            [] Mode = "prod" -> {[a |-> x, b |-> y] : x \in UndGraphs(0, NMax), y \in UndGraphs(0, NMax)}
@@ -154,6 +172,28 @@ ProdXOK == Mode = "prodx" =>
              /\ ((Sym(sa.g.E) = sa.g.E /\ Sym(sb.g.E) = sb.g.E /\ (key # "ModularExt:weq" \/ (sa.und /\ sb.und)))
                     => (Sym(X) = X /\ 2 * Cardinality(U) = Cardinality(X)))
 
+\* control flow intervals: per entry node the intervals (header, nodes, the edges inside), the edges of the derived
+\* graph between headers, and the classes of the input
+FlowRoot(V, E, r) ==
+    [r |-> r,
+     ivs |-> {[h |-> iv[1], nodes |-> iv[2], inner |-> Induced(E, iv[2])] : iv \in Intervals(E, r)},
+     dg |-> IvGraphEdges(E, r),
+     tags |-> IvTags(E, r)]
+FlowRec(V, E, roots) == [k |-> "flow", n |-> Cardinality(V), E |-> E, roots |-> {FlowRoot(V, E, r) : r \in roots}]
+WalkLen(n) == IF n <= 3 THEN 4 ELSE 3
+WalkRec(s) ==
+    LET n == Cardinality(s.g.V)
+        ids == 1 .. n + 1                               \* n + 1 is no node of the graph
+    IN [k |-> "walk", n |-> n, und |-> s.und, E |-> StoredEdges(s), maxlen |-> WalkLen(n),
+        yes |-> UNION {{p \in [1 .. len -> ids] : IsPathIn(s.g.V, s.g.E, p)} : len \in 0 .. WalkLen(n)}]
+EqualRec(sa, sb) ==
+    [k |-> "equal", nmodel |-> NMax,
+     va |-> sa.g.V, aund |-> sa.und, ea |-> StoredEdges(sa),
+     vb |-> sb.g.V, bund |-> sb.und, eb |-> StoredEdges(sb),
+     equal |-> TopoEqual(sa.g.V, sa.g.E, sb.g.V, sb.g.E)]
+\* R1 with every "equal" case: equality is that of the node sets and the arc sets
+EqualOK == Mode = "equal" => (TopoEqual(c.a.g.V, c.a.g.E, c.b.g.V, c.b.g.E) <=> (c.a.g.V = c.b.g.V /\ c.a.g.E = c.b.g.E))
+
 GenRec(kind, fan, ids) ==
     LET ctr == NMax                                       \* centre id for Star / Wheel: may collide with a leaf
         pan == GenPanics(kind, ids, ctr, fan)             \* the documented panics
@@ -174,6 +214,10 @@ GridRec(kind, fan, ids, ctr, pre) ==
 GridOK == Mode = "grid" => GenShapeOK(c.kind, Len(c.ids), c.fan)
 
 Rec == CASE Mode = "dir"  -> DirRec(c.V, c.E)
+         [] Mode = "flow" -> FlowRec(c.V, c.E, c.V)
+         [] Mode = "flow5" -> FlowRec(c.V, c.E, {1})
+         [] Mode = "walk" -> WalkRec(c)
+         [] Mode = "equal" -> EqualRec(c.a, c.b)
          [] Mode = "und"  -> UndRec(c.V, c.E)
          [] Mode = "part" -> PartRec(c.V, c.E, c.part)
          [] Mode = "prod" -> ProdRec(c.a, c.b)
